@@ -2949,3 +2949,94 @@ func RuleAL1(c *Ctx) {
 		sc.Undecided("sites", "-", "no function with a byte-slice parameter found")
 	}
 }
+
+// ---------------------------------------------------------------- LR1
+
+// RuleLR1: a loop that answers a question about all elements looks at more than the first.
+// A `for`/`range` body whose last statement is an unconditional `return` (and which has no
+// `continue` that could skip it) ends during the first iteration: the function returns what
+// the first element says and never sees the second (`for _, p := range pp { return p.x == ""
+// }`). Loops written to take the first element of a map or channel are not of this kind:
+// the rule looks only at loops over slices, arrays and strings, and at counted loops.
+func RuleLR1(c *Ctx) {
+	sc := c.Run.Begin("LR1", "no loop over a slice, array or string (or counted loop) ends unconditionally during its first iteration", 0)
+	defer sc.End()
+	n, loops := 0, 0
+	perFn := map[*ast.FuncDecl]int{}
+	c.P.Funcs(func(pk *pkgT, fd *ast.FuncDecl) {
+		if strings.Contains(c.P.Pos(fd.Pos()), "internal/") {
+			return
+		}
+		info := pk.TypesInfo
+		ast.Inspect(fd.Body, func(x ast.Node) bool {
+			var body *ast.BlockStmt
+			switch l := x.(type) {
+			case *ast.RangeStmt:
+				t := info.TypeOf(l.X)
+				if t == nil {
+					return true
+				}
+				switch u := t.Underlying().(type) {
+				case *types.Slice, *types.Array:
+				case *types.Pointer:
+					if _, isArr := u.Elem().Underlying().(*types.Array); !isArr {
+						return true
+					}
+				case *types.Basic:
+					if u.Info()&types.IsString == 0 {
+						return true
+					}
+				default:
+					return true
+				}
+				body = l.Body
+			case *ast.ForStmt:
+				if l.Cond == nil || l.Post == nil {
+					return true
+				}
+				body = l.Body
+			default:
+				return true
+			}
+			loops++
+			if len(body.List) == 0 {
+				return true
+			}
+			last := body.List[len(body.List)-1]
+			if _, isRet := last.(*ast.ReturnStmt); !isRet {
+				if br, isBr := last.(*ast.BranchStmt); !isBr || br.Tok != token.BREAK || br.Label != nil {
+					return true
+				}
+			}
+			// a `continue` earlier in the body (not inside a nested loop) can skip the return
+			skips := false
+			var walk func(nd ast.Node)
+			walk = func(nd ast.Node) {
+				ast.Inspect(nd, func(y ast.Node) bool {
+					switch z := y.(type) {
+					case *ast.ForStmt, *ast.RangeStmt, *ast.FuncLit:
+						return y == nd
+					case *ast.BranchStmt:
+						if z.Tok == token.CONTINUE {
+							skips = true
+						}
+					}
+					return true
+				})
+			}
+			for _, st := range body.List[:len(body.List)-1] {
+				walk(st)
+			}
+			if skips {
+				return true
+			}
+			n++
+			perFn[fd]++
+			sc.Violation(fmt.Sprintf("%s#%d", c.P.DeclName(fd), perFn[fd]), c.P.Pos(last.Pos()), "the loop body ends with an unconditional exit: the loop stops during its first iteration, so only the first element is ever looked at (an empty {} that is not the first parameter of a path passes)")
+			return true
+		})
+	})
+	if n == 0 {
+		sc.Holds("loops", "-", fmt.Sprintf("%d loops over slices, arrays, strings or counters, none ends unconditionally in its first iteration", loops))
+	}
+}
